@@ -68,19 +68,19 @@ def stmtList (s : Sexp) : Option (List Stmt) :=
 `(chunk <loop> chunksize chunked out el)`, `(fuse <loop1> <loop2> adjacent reversed)`,
 `(swap v <lo> <hi> <st> (<child>…))`, `(hoist v <lo> <hi> <st> (<pre>…) <stmt> (<post>…))`
 → `(ok <stmt>)` or `(refuse <class>)` -/
-def handle (s : Sexp) : String :=
+def handleF (f : Fixes) (s : Sexp) : String :=
   match s with
   | .list [.atom "chunk", l, c, ch, o, e] =>
     match loopOf l, c.int?, ch.nat?, o.nat?, e.nat? with
     | some l, some c, some ch, some o, some e =>
       let t : ChunkTarget := ⟨l, c, ch != 0, o, e⟩
-      answer (chunkValidate t) (chunkApply t)
+      answer (chunkValidateF f t) (chunkApply t)
     | _, _, _, _, _ => "bad-chunk"
   | .list [.atom "fuse", l1, l2, adj, rev] =>
     match loopOf l1, loopOf l2, adj.nat?, rev.nat? with
     | some l1, some l2, some adj, some rev =>
       let t : FuseTarget := ⟨l1, l2, adj != 0, rev != 0⟩
-      answer (fuseValidate t) (fuseApply t)
+      answer (fuseValidateF f t) (fuseApply t)
     | _, _, _, _ => "bad-fuse"
   | .list [.atom "swap", v, lo, hi, st, body] =>
     match v.nat?, parseExpr lo, parseExpr hi, parseExpr st, stmtList body with
@@ -104,7 +104,7 @@ def handle (s : Sexp) : String :=
     match v.nat?, parseExpr lo, parseExpr hi, parseExpr st, stmtList body, tile.int?, oo.nat?, eo.nat?, oi.nat?, ei.nat? with
     | some v, some lo, some hi, some st, some body, some tile, some oo, some eo, some oi, some ei =>
       let t : TileTarget := ⟨v, lo, hi, st, body, tile, oo, eo, oi, ei⟩
-      answer (tileValidate t) (tileApply t)
+      answer (tileValidateF f t) (tileApply t)
     | _, _, _, _, _, _, _, _, _, _ => "bad-tile2d"
   | .list [.atom "replaceiv", v, lo, hi, st, body] =>
     match v.nat?, parseExpr lo, parseExpr hi, parseExpr st, stmtList body with
@@ -124,5 +124,15 @@ def handle (s : Sexp) : String :=
     | some r => answerStore (execR r (storeOf [])).1 (qs.items.filterMap parseLoc)
     | none => "bad-rstmt"
   | _ => "bad-op"
+
+/-- `(fixes fuseOrder chunkDiv chunkSelf <line>)`: the line under the given repair flags (probed
+from the live code by the harness); a bare line is answered by the pinned model -/
+def handle (s : Sexp) : String :=
+  match s with
+  | .list [.atom "fixes", a, b, c, cmd] =>
+    match a.nat?, b.nat?, c.nat? with
+    | some a, some b, some c => handleF ⟨a != 0, b != 0, c != 0⟩ cmd
+    | _, _, _ => "bad-fixes"
+  | _ => handleF {} s
 
 def main : IO Unit := run handle
